@@ -247,12 +247,26 @@ func runChain(out *sink, op string, validateOnly bool) string {
 	exp := Expect(spec)
 	oracle(out, spec, exp, act, co.client)
 	out.emit("N", "")
+	// the topics the source API lists (name + message schemas), in order: ties the producer's topic
+	// naming (sourcewalk/topic.go) to Names.topicName / messageName
+	var topics []string
+	for _, p := range co.api.Packages {
+		for _, sp := range p.SubPackages {
+			for _, t := range sp.Topics {
+				var ms []string
+				for _, m := range t.Messages {
+					ms = append(ms, m.Schema)
+				}
+				topics = append(topics, t.Name+"="+strings.Join(ms, "+"))
+			}
+		}
+	}
 	if len(spec.Entities) > 0 {
 		// entity expansion is C17's model; the summary line then only carries the declared services
 		act.Keys = nil
 		return "ok E " + act.String()
 	}
-	return "ok " + act.String()
+	return "ok " + act.String() + " T:" + csv(topics, "-")
 }
 
 func firstDiff(a, b proto.Message) string {
